@@ -159,13 +159,13 @@ def run(tier, seed):
     t0 = time.time()
     selftest()
     exe = core.build("rel")
-    n, mt = (900, 300000) if tier == "quick" else (15000, 3000000)
+    n, mt = (700, 300000) if tier == "quick" else (9000, 2000000)
     stats, fails = core.hyp_search(lambda: strategy(mt), make_eval(exe), n, seed)
     extra = {}
     # in-process: generate_prefix_code() on synthetic symbol arrays (alphabets 3-258, uniform / geometric / Fibonacci /
     # sparse weights, 1-6 tables) against a package-merge optimum in C++ (self-tested against brute force)
     from props import _inproc
-    _inproc.add(stats, fails, "prefix", seed, 6000 if tier == "quick" else 600000)
+    _inproc.add(stats, fails, "prefix", seed, 3500 if tier == "quick" else 60000)
     oc = core.conclude(PID, fails, replay_case)
     core.write_evidence(PID, tier, seed, "exploration", stats, RULE, time.time() - t0,
                         violations=len(oc.violations), extra=extra,
